@@ -167,8 +167,11 @@ class FnExec(ExprMixin, CallMixin, StmtMixin):
         self.obligations.append(cov)
         self.snapshot_old(st)
         self.entry_pc_len = len(st.pc)
-        results = self.exec_block(fn.body, st)
         is_gen = any(isinstance(n, (ast.Yield, ast.YieldFrom)) for n in ast.walk(fn))
+        if is_gen:
+            rpt = self.tenv.parse(c.returns)
+            st.env["__yielded__"] = SV(smt.SeqEmpty(self.tenv.sort(rpt.args[0])), rpt)
+        results = self.exec_block(fn.body, st)
         for st2, flow, val in results:
             if is_gen and flow in (Flow.NORMAL, Flow.RETURN):
                 rpt = self.tenv.parse(c.returns)
